@@ -16,7 +16,8 @@ NEXT = ("next",)
 
 
 class LoopSpec:
-    def __init__(self, invariant=(), modifies=None, unroll=None, note="", elem=None, fresh_boxes=False):
+    def __init__(self, invariant=(), modifies=None, unroll=None, note="", elem=None, fresh_boxes=False, body_end=None):
+        self.body_end = body_end     # callback(engine, path, loop statement) at the end of every body path of a loop over an unmodelled iterable
         self.fresh_boxes = fresh_boxes   # containers allocated since function entry may change freely; older ones are framed
         self.elem = elem             # element type of the list built by an effectful comprehension
         self.invariant = list(invariant)
@@ -626,7 +627,14 @@ class StmtMixin:
         # concrete short tuples: unroll exactly
         if isinstance(itv, VTup) and (spec is None or spec.unroll):
             return self.unroll_for(p, s, itv.items)
-        seq = self.iter_seq(itv, p)
+        try:
+            seq = self.iter_seq(itv, p)
+        except Unsupported:
+            # lenient mode: iterating an object of an abstract class without modelled state is a loop over an unmodelled iterable
+            d = self.classes.get(itv.cls) if isinstance(itv, VRef) and itv.cls else None
+            if self.lenient and d is not None and not d.fields and not d.box and d.record is None:
+                return self.opaque_for(p, s, spec or LoopSpec(modifies=[]), k)
+            raise
         c = z3.simplify(seq.len)
         if z3.is_int_value(c) and c.as_long() <= 4 and spec is None:
             return self.unroll_for(p, s, [seq.at(z3.IntVal(i)) for i in range(c.as_long())])
@@ -677,6 +685,8 @@ class StmtMixin:
                         self.check_loop_frame(q2, spec, havoc_heap, L)
                         for idx, inv in enumerate(spec.invariant or []):
                             self.oblige(q2, self.spec_bool(inv, q2, {}), "inv-step", f"{L}#{idx}")
+                        if getattr(spec, "body_end", None) is not None:
+                            spec.body_end(self, q2, s)
                         self.terminal(q2, f"loop-end {L}")
                     elif oc2[0] == "break":
                         self.check_loop_frame(q2, spec, havoc_heap, L)
